@@ -260,6 +260,41 @@ def gen_style(rng, plain=False):
     }
 
 
+def gen_prelude(rng):
+    """Another session that the same process ran BEFORE the one under judgement (a tournament
+    driver running tables back to back in one interpreter): one or two boards, scripted seats,
+    ended normally, or abandoned because of an illegal call, or because a seat walked away (at the
+    deal, in the auction, in the play) and the operator interrupted the hung table manager.
+    Whatever it leaves behind in the process -- class attributes, module-level tables, caches --
+    the next session must not see."""
+    nb = rng.choice((1, 1, 2))
+    boards = [gen_board(rng, i) for i in range(nb)]
+    script = gen_script(rng, boards, style=rng.choice(('allpass', 'short', 'target')))
+    seats = {s: {'kind': 'scripted', 'style': gen_style(rng), 'seed': rng.randrange(1 << 30)}
+             for s in rb.SEATS}
+    pre = {'boards': boards, 'script': script, 'seats': seats,
+           'teams': {'NS': gen_team_name(rng), 'EW': gen_team_name(rng)}, 'abort': None}
+    r = rng.random()
+    if r < 0.35:
+        b = rng.randrange(nb)
+        phase = rng.choice(('deal', 'call'))
+        pre['abort'] = {'kind': 'leave', 'seat': rng.choice(rb.SEATS), 'board': b, 'phase': phase,
+                        'index': 0 if phase == 'deal' else
+                        rng.randrange(max(1, len(script[b]['calls'])))}
+    elif r < 0.6:
+        a = rb.Auction(boards[0]['dealer'])
+        i = rng.randrange(max(1, len(script[0]['calls'])))
+        for c in script[0]['calls'][:i]:
+            a.apply(c)
+        bad = [c for c in rb.CALLS if not a.legal(c)]
+        if bad:
+            c = rng.choice(bad)
+            body = {'X': 'doubles', 'XX': 'redoubles'}.get(c, 'bids ' + c)
+            pre['abort'] = {'kind': 'offend', 'seat': a.turn, 'board': 0, 'phase': 'call',
+                            'index': i, 'raw': f'{rb.SEAT_NAMES[a.turn]} {body}'}
+    return pre
+
+
 def gen_s1(rng, nboards=None, table=None):
     """A conforming-session scenario."""
     long_session = False
@@ -306,8 +341,12 @@ def gen_s1(rng, nboards=None, table=None):
                                                                  'competitive'))))
     else:
         script = gen_script(rng, boards)
+    prelude = None
+    if rng.random() < 0.08:
+        prelude = gen_prelude(rng)
     return {
         'family': 'S1',
+        'prelude': prelude,
         'boards': boards,
         'teams': {'NS': ns, 'EW': ew},
         'script': script,
